@@ -619,11 +619,22 @@ func WindowWhen[T, B any](boundary Observable[B]) func(Observable[T]) Observable
 		return NewObservableWithContext(func(subscriberCtx context.Context, destination Observer[Observable[T]]) Teardown {
 			var window Subject[T]
 
+			// set once the last window has been closed (source or boundary is done): a boundary
+			// tick racing with the termination must not open a window that nobody will ever close
+			var closed bool
+
 			mu := xsync.MutexWithSpinlock{}
 
 			flush := func(ctx context.Context, skipNew bool) {
 				// reset Observable even if no notification were sent
 				mu.Lock()
+
+				if closed {
+					mu.Unlock()
+					return
+				}
+
+				closed = skipNew
 
 				tmp := window
 
